@@ -469,16 +469,16 @@ def library_items(ctx):
             xs = [r[0] for r in rows]
             scale = max(abs(r[1]) for r in rows)
             knots = ("v", xs)
-            step = max(1, len(xs) // (6 if ctx.quick else 40))
+            step = max(1, len(xs) // (4 if ctx.quick else 40))
             pts = []
             for a, b in list(zip(xs, xs[1:]))[::step]:
                 pts += [(a + b) / 2, a + (b - a) * Fr(rng.randint(1, 63), 64)]
             span = xs[-1] - xs[0]
             pts += [xs[0] - span / 8, xs[0] - 3 * span, xs[-1] + span / 4, xs[-1] + 2 * span]
             pts = [Fr(float(p)) for p in pts]             # the query itself is a float: exact rational
-            for qu in [knots, ("v", pts)] + [("s", x) for x in rng.sample(xs, min(len(xs), 3))] + \
-                      [("s", p) for p in rng.sample(pts, 3)]:
-                for fname, arg in forms(rng, (qu[0], [Fr(float(v)) for v in qu[1]] if qu[0] == "v" else Fr(float(qu[1]))))[:3 if ctx.quick else 9]:
+            for qu in [knots, ("v", pts)] + [("s", x) for x in rng.sample(xs, min(len(xs), 2))] + \
+                      [("s", p) for p in rng.sample(pts, 2)]:
+                for fname, arg in forms(rng, (qu[0], [Fr(float(v)) for v in qu[1]] if qu[0] == "v" else Fr(float(qu[1]))))[:(2 if qu[0] == "v" else 1) if ctx.quick else 9]:
                     qq = (qu[0], [Fr(float(v)) for v in qu[1]]) if qu[0] == "v" else ("s", Fr(float(qu[1])))
                     items.append(["%s %s %s" % (model, rec, cquery(qq)), call(getter, arg),
                                   {"fn": "Fluid.get_" + prop, "fluid": fl, "arg_form": fname, "clause": "library_values",
@@ -686,6 +686,53 @@ def monitor_laws(ctx):
                           {"fluid": fl, "p_bar": [p1, p2], "slope": slope, "der_compressibility": der})
 
 
+def monitor_class_laws(ctx):
+    """conclusions of the integral / pump theorems on the running classes with dyadic data, evaluated with
+    exact rationals in Python from the property text (independent of the generated formulas)"""
+    import numpy as np
+    from pandapipes.properties.fluids import FluidPropertyLinear, FluidPropertyConstant
+    from pandapipes.std_types.std_type_class import PumpStdType
+    rng = ctx.rng
+    for _ in range(20 if ctx.quick else 400):
+        slope, offset, value = dy(rng, -8, 8, 16), dy(rng, -32, 32, 8), dy(rng, -64, 64, 16)
+        a, b, c = (dy(rng, -16, 16, 8) for _ in range(3))
+        lin, con = FluidPropertyLinear(float(slope), float(offset)), FluidPropertyConstant(float(value))
+        f = lambda x: offset + slope * x  # noqa: E731
+        for name, obj, exact, val in (("FluidPropertyLinear", lin, lambda u, l: (f(u) + f(l)) / 2 * (u - l), f),
+                                      ("FluidPropertyConstant", con, lambda u, l: value * (u - l), lambda x: value)):
+            got = {}
+            for (u, l) in ((a, b), (b, a), (b, c), (a, c)):
+                r = call(obj.get_at_integral_value, float(u), float(l))
+                got[(u, l)] = r
+                ctx.case({"fn": name + ".get_at_integral_value", "limits": [str(u), str(l)]}, True)
+                if r != ("s", exact(u, l)):
+                    ctx.violation({"fn": name + ".get_at_integral_value", "clause": "consistent"},
+                                  "%s(slope=%s, offset=%s, value=%s): integral(%s, %s) = %s, the property values give %s"
+                                  % (name, slope, offset, value, u, l, r[1], exact(u, l)),
+                                  {"slope": str(slope), "offset": str(offset), "value": str(value), "limits": [str(u), str(l)]})
+                    break
+            v = call(obj.get_at_value, float(a))
+            if v != ("s", val(a)):
+                ctx.violation({"fn": name + ".get_at_value", "clause": "value"},
+                              "%s.get_at_value(%s) = %s, documented %s" % (name, a, v[1], val(a)),
+                              {"slope": str(slope), "offset": str(offset), "value": str(value), "arg": str(a)})
+        # pump: documented law max(0, sum c_i (3600 q)^(deg-i)), 0 for q < 0
+        deg = rng.choice([1, 2, 2, 3])
+        reg = [dy(rng, -4, 4, 16) for _ in range(deg + 1)]
+        pump = PumpStdType("p", np.array([float(x) for x in reg]))
+        for _k in range(3):
+            qf = Fr(rng.randint(-16, 16), 16 * 3600)
+            doc = Fr(0) if qf < 0 else max(Fr(0), sum(cf * (qf * 3600) ** (deg - i) for i, cf in enumerate(reg)))
+            for branch, r in (("scalar", call(pump.get_pressure, float(qf))),
+                              ("array", call(pump.get_pressure, np.array([float(qf)])))):
+                exp = ("s", doc) if branch == "scalar" else ("v", [doc])
+                if r != exp:
+                    ctx.violation({"fn": "PumpStdType.get_pressure", "branch": branch, "clause": "pump_lift"},
+                                  "reg_par %s, vdot %s m3/s: lift %s, regression polynomial clipped at 0 gives %s"
+                                  % ([str(x) for x in reg], qf, r[1], doc),
+                                  {"reg_par": [str(x) for x in reg], "vdot_m3_per_s": str(qf), "branch": branch})
+
+
 def monitor_list_limits(ctx):
     """documented argument kind 'float or list-like objects' for the integral limits"""
     from pandapipes.properties.fluids import FluidPropertyInterExtra
@@ -753,9 +800,9 @@ def run(ctx):
                            "the least-squares polynomial (checked against an exact rational fit for the library pumps)")
     # ---- exact correspondence
     import pandapipes  # noqa: F401
-    n = 12 if ctx.quick else 150
+    n = 8 if ctx.quick else 120
     groups = [("interextra", cases_interextra, n), ("linear_constant", cases_linear_constant, n),
-              ("polynomial", cases_polynomial, n), ("pump", cases_pump, 3 * n), ("mixture", cases_mixture, 2 * n)]
+              ("polynomial", cases_polynomial, n), ("pump", cases_pump, 3 * n), ("mixture", cases_mixture, n)]
     for gname, fn, cnt in groups:
         cs = Cases()
         try:
@@ -795,7 +842,7 @@ def run(ctx):
                                                      "tolerance": "1e-12 relative (decimal data read as floats)"})
         if bad:
             report_mismatches(ctx, items, bad, "library")
-    for mon in (monitor_laws, monitor_list_limits, monitor_pipe_types, monitor_real_mixtures):
+    for mon in (monitor_laws, monitor_class_laws, monitor_list_limits, monitor_pipe_types, monitor_real_mixtures):
         try:
             mon(ctx)
         except Exception:
